@@ -1160,21 +1160,32 @@ class Prov:
         if key in busy:
             return True                     # coinductive: a cycle adds nothing new
         busy.add(key)
+        prev = self.__dict__.get('_abs_qual')
+        self._abs_qual = qual
         try:
             return self._is_abs(node, qual, sources, busy)
         finally:
+            self._abs_qual = prev
             busy.discard(key)
 
     def _elem(self, v, qual, sources, busy):
         ok = self.is_abs(v, qual, None, busy)
         if sources is not None:
-            sources.append((v, ok))
+            sources.append((v, ok, qual))
         return ok
 
-    def _leaf(self, node, sources, ok):
+    def _leaf(self, node, sources, ok, qual=None):
         if sources is not None:
-            sources.append((node, ok))
+            sources.append((node, ok, qual if qual is not None else self._abs_qual))
         return ok
+
+    def understood_relative(self, node, qual):
+        """A value that is not definitely absolute is *understood* to be possibly relative when the dataflow knows where it comes
+        from: the command line / the caller, text of a source line, a relative literal."""
+        if qual is None:
+            return False
+        ks = set(self.kinds(node, qual)) - {'NoneK'}
+        return bool(ks) and ks <= {'UserGiven', 'CliArgs', 'RawToken', 'Literal', 'Dir'}
 
     def _is_abs(self, node, qual, sources, busy):
         rec = lambda n, q=qual: self.is_abs(n, q, sources, busy)
